@@ -161,6 +161,20 @@ CHECKS = {
         "level_note": "in-process repetition relies on Go re-randomising map iteration per loop; child processes re-run the same test binary",
         "assumptions": ["with two or more independent injected errors the error text may depend on file order: at most one error is injected"],
     },
+    "C14": {
+        "test": "TestC14", "level": "translation_validation", "needs_node": True,
+        "quick": {"shards": 8, "checks": 400, "timeout": 900},
+        "thorough": {"shards": 16, "checks": 6000, "timeout": 3400},
+        "rule": "closed bundles (namespaces of 1-4 segments, one or two files) that print 1-6 literal strings - single ASCII bytes, pieces from a hostile "
+                "alphabet (quotes, backslashes, line terminators U+2028/2029, </script>, ]]>, comment markers, NUL and other controls, BOM, astral and "
+                "unassigned code points), arbitrary Unicode strings, runs of 100-3000 repetitions - each placed as raw text, literal block, string literal "
+                "(plain or \\u-escaped), map key, map value, list item, css name, msg text, string global, param content or switch case; non-trivial = a "
+                "literal contains a character that needs escaping inside a JavaScript string",
+        "technique": "translation validation by execution: property-based generation (rapid); node parses the ES5 and ES6 output, typeof of every qualified name, and the returned string equals the generator's own concatenation of the literals",
+        "level_text": "every generated file must parse (ES5 script and ES6 module), define each template as a function under its qualified name, and reproduce every literal character exactly when executed",
+        "level_note": "the expected string is computed by the generator (and cross-checked against the reference interpreter), independent of both backends; ES6 output is parsed but not linked",
+        "assumptions": ["raw template text cannot contain braces or comment openers (they are replaced before placement); namespace segments are not JavaScript reserved words"],
+    },
     "C15": {
         "test": "TestC15", "level": "exploration",
         "quick": {"shards": 8, "checks": 800, "timeout": 900},
